@@ -115,6 +115,9 @@ def _random_side(ctx):
     for _ in range(n_rnd):
         table, hist = rc.gen_random(rng, rng.choice([5, 8, 12]))
         items.append(('rnd', 'rnd', table, hist))
+    for _ in range(n_rnd // 2):
+        table, hist = rc.gen_traits(rng, rng.choice([4, 6, 8]))
+        items.append(('rnd', 'rnd-traits', table, hist))
     return items
 
 
